@@ -221,6 +221,19 @@ def run(F, R, ctx):
         R.inst("C05.d", "%s calls get_mut_unchecked" % lib.short_name(c), bool(allowed_unchecked.search(c)),
                "%s obtains &mut to the payload through the unchecked accessor, bypassing the uniqueness test" % lib.short_name(c),
                F.fns[c].loc() if c in F.fns else "", sample=True)
+    hu_ = F.one(r"^steel_rc::\{impl RcBox<T>\}::has_unique_ref$")
+    cmp1 = [e for _, _, e in hu_.events("binop") if e[1] == "Eq" and e[2] == "u32" and "const:1" in (e[5], e[6])]
+    cmp0 = [e for _, _, e in hu_.events("binop") if e[1] in ("Ne", "Eq") and e[2] == "i32" and "const:0" in (e[5], e[6])]
+    setc = [b["args"] for _, b in hu_.calls() if re.search(r"\{impl Packed\}::set_counter$", b["callee"])]
+    R.inst("C05.d", "has_unique_ref / owner branch: local count == 1 and shared count == 0", bool(cmp1) and bool(cmp0) and
+           bool(hu_.call_blocks(r"\{impl Packed\}::get_counter$")),
+           "RcBox::has_unique_ref no longer compares the owner counter with 1 and the shared counter with 0: it can report "
+           "uniqueness while another thread still holds a reference", hu_.loc(), sample=True)
+    R.inst("C05.d", "has_unique_ref / merged branch: compare_exchange(count 1 -> 0)",
+           bool(hu_.call_blocks(r"\{impl SharedPacked\}::compare_exchange$")) and
+           any("const:1" in a for a in setc) and any("const:0" in a for a in setc),
+           "RcBox::has_unique_ref's ownerless branch no longer claims the value with compare_exchange(expected count 1)",
+           hu_.loc(), sample=True)
     tu = F.one(r"^steel_rc::\{impl BiasedRc<T>\}::try_unwrap$")
     R.inst("C05.d", "BiasedRc::try_unwrap consults the owner id and the owner counter",
            bool(tu.call_blocks(r"\{impl ThreadId\}::current_thread$")) and bool(tu.call_blocks(r"try_unwrap_internal(_same_thread)?$")),
